@@ -1,0 +1,25 @@
+package baseoutput
+
+import "github.com/relex/slog-agent/base"
+
+// verifChunkIDs lists chunk IDs for verification hooks (only called when vhook.Enabled)
+func verifChunkIDs(chunks []base.LogChunk) []string {
+	ids := make([]string, len(chunks))
+	for i, c := range chunks {
+		ids[i] = c.ID
+	}
+	return ids
+}
+
+// verifPeekChannel returns the contents of a buffered channel nobody else is using yet, preserving order
+// (only called when vhook.Enabled)
+func verifPeekChannel(ch chan base.LogChunk) []base.LogChunk {
+	n := len(ch)
+	items := make([]base.LogChunk, 0, n)
+	for i := 0; i < n; i++ {
+		c := <-ch
+		items = append(items, c)
+		ch <- c
+	}
+	return items
+}
